@@ -439,6 +439,8 @@ pub struct Ctx {
     pub replay: Option<Value>,
     /// default number of cases per family re-run under the Trace-level sink logger (0 = none)
     pub trace_default: AtomicU64,
+    /// violations that did not reproduce when their case was executed again (reported, never a verdict)
+    pub unreproducible: Mutex<Vec<String>>,
 }
 
 const SHARDS: usize = 256;
@@ -474,6 +476,7 @@ impl Ctx {
             shards: (0..SHARDS).map(|_| Mutex::new(HashSet::new())).collect(),
             replay: None,
             trace_default: AtomicU64::new(0),
+            unreproducible: Mutex::new(vec![]),
         }
     }
     /// Enable the trace pass: every family is followed by a re-run of `budget` evenly spread cases
@@ -657,6 +660,7 @@ impl Ctx {
                 s.spawn(|| {
                     let mut loc = self.new_local(&fam.name, 1);
                     loc.distinct = fam.distinct_by_construction;
+                    let mut confirmations = 0u32;
                     loop {
                         let lo = next.fetch_add(chunk, Ordering::Relaxed);
                         if lo >= fam.size || stop.load(Ordering::Relaxed) {
@@ -665,7 +669,31 @@ impl Ctx {
                         let hi = (lo + chunk).min(fam.size);
                         for idx in lo..hi {
                             loc.cur_index = idx;
+                            let before = loc.viol_count;
+                            let recorded = loc.violations.len();
                             (fam.run)(idx, &mut loc);
+                            // before a violation is trusted the case is executed twice more: the same
+                            // case must fail the same way every time (a divergence means nondeterminism
+                            // the harness does not own, or a subject whose verdict depends on history)
+                            if loc.viol_count > before && loc.violations.len() > recorded && confirmations < 8 {
+                                confirmations += 1;
+                                let key = loc.violations[recorded].key.clone();
+                                for _ in 0..2 {
+                                    let mut probe = self.new_local(&fam.name, 0);
+                                    probe.distinct = true;
+                                    probe.cur_index = idx;
+                                    probe.input_hash_override = loc.input_hash_override;
+                                    (fam.run)(idx, &mut probe);
+                                    if !probe.violations.iter().any(|v| v.key == key) {
+                                        let d = loc.violations[recorded].description.chars().take(400).collect::<String>();
+                                        self.unreproducible.lock().unwrap().push(format!("family {} index {} key [{}]: {}", fam.name, idx, key, d));
+                                        // withdraw it: it is reported separately, not as a verdict
+                                        loc.violations.truncate(recorded);
+                                        loc.viol_count = before;
+                                        break;
+                                    }
+                                }
+                            }
                         }
                         if fam.distinct_by_construction {
                             stat.lock().unwrap().states += hi - lo;
@@ -742,6 +770,10 @@ impl Ctx {
         }
         let real = self.violations.lock().unwrap().clone();
         let mut exit = 0;
+        let unrep = self.unreproducible.lock().unwrap().clone();
+        for u in unrep.iter().take(6) {
+            println!("UNREPRODUCIBLE (the case did not fail again when executed twice more; not a verdict): {}", u);
+        }
         let replay_mode = self.replay.is_some();
         if total > 0 {
             exit = 1;
@@ -794,6 +826,7 @@ impl Ctx {
             cov.insert("caps_hit".into(), json!(self.caps.lock().unwrap().clone()));
             cov.insert("threads".into(), json!(self.threads));
             cov.insert("known_findings_matched".into(), json!(known_hits));
+            cov.insert("unreproducible_violations_withdrawn".into(), json!(unrep.len()));
             for (k, v) in self.extra.lock().unwrap().iter() {
                 cov.insert(k.clone(), v.clone());
             }
@@ -822,6 +855,10 @@ impl Ctx {
             total,
             wall
         );
+        if exit == 0 && !unrep.is_empty() {
+            println!("[{}] MACHINERY: {} violation(s) did not reproduce when their case was executed again (nondeterminism outside the harness's control, or a verdict that depends on earlier calls); no verdict", self.prop, unrep.len());
+            return 2;
+        }
         if exit == 0 {
             if replay_mode {
                 println!("[{}] replay: the recorded case does NOT violate the property on this tree", self.prop);
